@@ -109,6 +109,11 @@ fn main() -> ExitCode {
             || first_arg.starts_with("--config")
             || first_arg.starts_with("/c")
         {
+            if args.len() < 2 {
+                error_message("config", "path to the configuration file is missing");
+                return ExitCode::from(2);
+            }
+
             let config_path = args[1].to_ascii_lowercase();
             config = match Config::from(PathBuf::from(&config_path)) {
                 Ok(cnf) => cnf,
